@@ -130,6 +130,13 @@ def generate(spec):
         case["fault_at"] = rng.choice(singles)      # (REST channel) this run-step request fails inside the step once and is asked again
     if rng.random() < 0.45:
         case["step_settings"] = gen_step_settings(rng, template, nsteps)
+    if template == "T5" and dt < 1.0 and nsteps >= 7 and rng.random() < 0.4:
+        # two steps close to each other (closer than the look-back) set DIFFERENT constants, the looked-back one last, and only
+        # the stock is watched: what the delay looks back at between the two steps was never asked for before
+        k1 = rng.randrange(2, nsteps - 4)
+        case["step_settings"] = {str(k1): {"constants": {"gain": rng.choice([0.5, 2.0, 3.0])}},
+                                 str(k1 + rng.choice([1, 2])): {"constants": {"pace": rng.choice([0.0, 3.0, 7.0])}}}
+        case["equations"] = ["pile"]
     if rng.random() < 0.3:
         d2 = rng.choice([x for x in [1.0, 0.5, 0.25] if x != dt] or [0.5])
         case["second"] = {"start": start, "dt": d2, "stop": start + d2 * rng.choice([3, 6, 9])}
